@@ -2,7 +2,9 @@ package filesys
 
 import (
 	"fmt"
+	"os"
 	"path"
+	"sync/atomic"
 
 	"github.com/pkg/errors"
 	"golang.org/x/sys/unix"
@@ -83,10 +85,16 @@ func (fs DirFs) Delete(dir, fname string) {
 	}
 }
 
+// tmpCounter makes the temp file names of AtomicCreate unique within the process
+var tmpCounter uint64
+
 func (fs DirFs) AtomicCreate(dir, fname string, data []byte) {
-	tmpFile := fname + ".tmp"
+	// every call writes its own, initially empty temp file: neither the
+	// leftover of an interrupted call nor a concurrent call (for any directory
+	// or name) can contribute bytes to it
+	tmpFile := fmt.Sprintf("%s.%d.%d.tmp", fname, os.Getpid(), atomic.AddUint64(&tmpCounter, 1))
 	fd, err := unix.Openat(fs.rootFd, tmpFile,
-		unix.O_CREAT|unix.O_WRONLY, 0644)
+		unix.O_CREAT|unix.O_TRUNC|unix.O_WRONLY, 0644)
 	if err != nil {
 		panic(err)
 	}
